@@ -80,7 +80,7 @@ def spelling_obs(timeout):
     obs.append(Ob('c03.spellings', h, witness=[(1, 2, 3, 4), (0, -5, 7, 9)], timeout=timeout, cost=30, family='c03.spellings',
                   bounds=f'4 sheets {SHEETS} (one name extends another); target B2 on each with a symbolic int; {len(probes)} probe cells = 4 $-variants x (unqualified + qualified to each sheet, '
                          'quoted where needed) on each sheet; two chains crossing all three sheets with unqualified references on each',
-                  show=lambda a, b, c: f'B2 values: Data={a}, My Sheet={b}, Bob\'s={c}'))
+                  show=lambda a, b, c, d: f'B2 values: Data={a}, My Sheet={b}, Bob\'s={c}, Data2={d}'))
 
     # blank / missing cells read as blank, never as an error
     MB = mk({'A1': 1, 'Z1': '=B7+1', 'Z2': '=B7&"x"', 'Z3': '=SUM(C1:D2)', 'Z4': '=COUNTA(C1:D2)', 'Z5': '=ISBLANK(B7)', 'Z6': '=Other!A1+A1', 'Z7': '=COUNT(C1:D2)'})
